@@ -1669,9 +1669,17 @@ Definition cst_of (f : fdl) (decl : nat) : cst :=
 (* ------------------------------------------------------------------------------------------ *)
 (* One poll, all states: where the callbacks of a poll come from                               *)
 
+(* a poll that calls no application: the station was re-created, or the application-relevant fields are
+   kept and the state moved as the prologue and one quiet function allow *)
+Definition quiet_poll (now : Z) (f f' : fdl) : Prop :=
+  f_p f' = f_p f /\
+  (is_reset f' \/
+   (keepf f f' /\ exists s3, prologue_state (f_state f) s3 /\ qstate now s3 (f_state f') /\
+                             (in_visit (kind_of s3) = true -> f_state f' = s3))).
+
 Lemma poll_calls_cases f now pin (apps : list A) f' o apps' calls :
   poll ops f now pin apps = Ok (f', o, apps', calls) ->
-  (calls = [] /\ apps' = apps) \/
+  (calls = [] /\ apps' = apps /\ quiet_poll now f f') \/
   (exists f3 w3 w', keepf f f3 /\ f_state f3 = f_state f /\ w_calls w3 = [] /\ w_apps w3 = apps /\
      calls = w_calls w' /\ apps' = w_apps w' /\
      (do_use_token A ops f3 now w3 = Ok (f', w') \/ do_await_data_response A ops f3 now w3 = Ok (f', w'))).
@@ -1679,22 +1687,28 @@ Proof.
   unfold poll, poll_traced. intros H.
   destruct (poll_inner ops f now (tx_busy pin) (mkWorld (rx pin) None apps [] [])) as [[f1 w1]| |] eqn:E; cbn [bind] in H; try discriminate H.
   injection H as <- _ <- <-.
-  apply poll_inner_cases in E. destruct E as [[[Hc Ha] _]|[f3 [w3 [[Hc3 Ha3] [Kf3 [Hs3 Hd]]]]]].
-  - left. split; [exact Hc|exact Ha].
+  apply poll_inner_cases in E. destruct E as [[[Hc Ha] [Kf Hs]]|[f3 [w3 [[Hc3 Ha3] [Kf3 [Hs3 Hd]]]]]].
+  - left. split; [exact Hc|]. split; [exact Ha|]. split; [apply Kf|]. right. split; [exact Kf|].
+    exists (f_state f1). split; [exact Hs|]. split; [apply qstate_refl|reflexivity].
   - cbn in Hc3, Ha3.
-    assert (Hq : quiet now f3 w3 f1 w1 -> (w_calls w1 = [] /\ w_apps w1 = apps)) by (intros [[Qc Qa] _]; split; congruence).
+    assert (Hq : in_visit (kind_of (f_state f3)) = false -> quiet now f3 w3 f1 w1 ->
+                 (w_calls w1 = [] /\ w_apps w1 = apps /\ quiet_poll now f f1)).
+    { intros Hv [[Qc Qa] [Qp Qd]]. split; [congruence|]. split; [congruence|].
+      split; [destruct Kf3 as [Kp _]; congruence|]. destruct Qd as [[K Q]|R]; [right|left; exact R].
+      split; [eapply keepf_trans; eassumption|]. exists (f_state f3). split; [exact Hs3|]. split; [exact Q|].
+      intros C. rewrite C in Hv. discriminate Hv. }
     unfold dispatch in Hd.
     destruct (f_state f3) as [ | | | |tk fa fcd| |a tk fa| | | ] eqn:Es3; cbn [kind_of poll_dispatch] in Hd; try discriminate Hd.
-    + left. apply Hq. apply do_listen_token_quiet. exact Hd.
-    + left. apply Hq. apply do_active_idle_quiet. exact Hd.
+    + left. apply Hq; [reflexivity|]. apply do_listen_token_quiet. exact Hd.
+    + left. apply Hq; [reflexivity|]. apply do_active_idle_quiet. exact Hd.
     + right. exists f3, w3, w1. split; [exact Kf3|].
       split; [destruct Hs3 as [E|[_ [E|E]]]; [congruence|discriminate E|discriminate E]|]. tauto.
-    + left. apply Hq. apply do_claim_token_quiet. exact Hd.
+    + left. apply Hq; [reflexivity|]. apply do_claim_token_quiet. exact Hd.
     + right. exists f3, w3, w1. split; [exact Kf3|].
       split; [destruct Hs3 as [E|[_ [E|E]]]; [congruence|discriminate E|discriminate E]|]. tauto.
-    + left. apply Hq. apply squiet_quiet. apply do_pass_token_squiet. exact Hd.
-    + left. apply Hq. apply squiet_quiet. apply do_check_token_pass_squiet. exact Hd.
-    + left. apply Hq. apply squiet_quiet. apply do_await_status_response_squiet. exact Hd.
+    + left. apply Hq; [reflexivity|]. apply squiet_quiet. apply do_pass_token_squiet. exact Hd.
+    + left. apply Hq; [reflexivity|]. apply squiet_quiet. apply do_check_token_pass_squiet. exact Hd.
+    + left. apply Hq; [reflexivity|]. apply squiet_quiet. apply do_await_status_response_squiet. exact Hd.
 Qed.
 
 (* C15_delivered_reply_shape for one poll, from ANY state: whatever a poll hands to receive_reply is a
